@@ -99,6 +99,7 @@ from xandikos.store import (
     DuplicateUidError,
     File,
     InvalidCTag,
+    InvalidETag,
     InvalidFileContents,
     LockedError,
     NoSuchItem,
@@ -237,6 +238,12 @@ class ObjectResource(webdav.Resource):
             ) from exc
         except LockedError as exc:
             raise webdav.ResourceLocked() from exc
+        except InvalidETag as exc:
+            # The item was changed by another request after its ETag was
+            # checked; the If-Match style precondition no longer holds.
+            raise webdav.PreconditionFailure(
+                "{DAV:}getetag", "Resource was modified concurrently."
+            ) from exc
         return create_strong_etag(etag)
 
     def get_content_language(self) -> str:
@@ -390,6 +397,10 @@ class StoreBasedCollection:
         assert name != ""
         try:
             self.store.delete_one(name, etag=extract_strong_etag(etag))
+        except InvalidETag as exc:
+            raise webdav.PreconditionFailure(
+                "{DAV:}getetag", "Resource was modified concurrently."
+            ) from exc
         except NoSuchItem:
             # TODO: Properly allow removing subcollections
             # self.get_subcollection(name).destroy()
